@@ -6,6 +6,8 @@ import Driver.RatMode
 import Driver.MkMode
 import Driver.IntMode
 import Driver.NumMode
+import Driver.NamesMode
+import Driver.PipeMode
 /-! `osmt-model <mode> <file>`: line-protocol driver around the executable models and kernels. -/
 def main (args : List String) : IO UInt32 := do
   match args with
@@ -37,6 +39,16 @@ def main (args : List String) : IO UInt32 := do
     for l in txt.splitOn "\n" do
       if l != "" then out := out ++ Driver.numLine l ++ "\n"
     IO.print out
+    return 0
+  | ["names", path] =>
+    let txt ← IO.FS.readFile path
+    for l in Driver.runNames (txt.splitOn "\n") do IO.println l
+    return 0
+  | ["pipe", path] =>
+    let txt ← IO.FS.readFile path
+    for l in txt.splitOn "\n" do
+      if l != "" then
+        for o in Driver.pipeLine l do IO.println o
     return 0
   | ["mk", path] =>
     let txt ← IO.FS.readFile path
